@@ -65,8 +65,35 @@ def _parse_case(text):
 
 # ------------------------------------------------------------------------------------ (a)
 
+DIFFERENT_COPIES = []
+
+
+def _products_on_copy(what, serialised):
+    """run the lexer / parser products on an ATN copy (C++ or .interp) that differs from the imported one"""
+    from antlr4.atn.ATNDeserializer import ATNDeserializer
+    from blackbird.blackbirdLexer import blackbirdLexer as BL
+    from blackbird.blackbirdParser import blackbirdParser as BP
+    atn = ATNDeserializer().deserialize("".join(chr(x) for x in serialised))
+    base = BL if what == "lexer" else BP
+    shim = type("Shim", (), {"atn": atn, "ruleNames": base.ruleNames, "symbolicNames": base.symbolicNames, "literalNames": base.literalNames})
+    o = oracle()
+    if what == "lexer":
+        lp = product.lexer_product(shim, o.L)
+        return list(lp["mismatches"])
+    pp = product.parser_product(shim, o.parser_rules)
+    out = list(pp["mismatches"])
+    for pc in product.precedence_check(shim, o.parser_rules):
+        if pc["expect_preds"] != pc["got_preds"] or pc["expect_calls"] != pc["got_calls"]:
+            out.append(("precedence", pc["rule"]))
+    for rn, exp_t, got_t in product.operator_table(shim, o.parser_rules):
+        if exp_t != got_t:
+            out.append(("operator-table", rn))
+    return out
+
+
 def artefact_identity():
     P = art.path
+    del DIFFERENT_COPIES[:]
     bad = []
     n = 0
     files = {
@@ -93,8 +120,19 @@ def artefact_identity():
             if ref is None:
                 ref = (tag, v)
             elif v != ref[1]:
+                # a copy that is not element-for-element the automaton explored below is not by itself a violation
+                # (an equivalent automaton, e.g. from a regeneration, recognises the same language): it is put
+                # through the same products; only a product mismatch, or an unreadable automaton, is reported
                 idx = next((i for i, (x, y) in enumerate(zip(v, ref[1])) if x != y), min(len(v), len(ref[1])))
-                bad.append(("atn-differs", what, tag, "vs " + ref[0], "first difference at element %d (lengths %d / %d)" % (idx, len(v), len(ref[1]))))
+                where = "first difference from %s at element %d (lengths %d / %d)" % (ref[0], idx, len(v), len(ref[1]))
+                DIFFERENT_COPIES.append((what, tag))
+                try:
+                    mism = _products_on_copy(what, v)
+                except Exception as e:  # noqa
+                    bad.append(("atn-differs-and-unreadable", what, tag, where, common.exc_sig(e)))
+                    continue
+                if mism:
+                    bad.append(("atn-differs", what, tag, where, "product: " + repr(mism[:2])[:300]))
     # vocabularies
     _, lx, ps = reader.read()
     g4_tokens = [r.name for r in lx if not r.fragment]
@@ -150,6 +188,10 @@ def artefact_identity():
     try:
         ps_ = art.normalise_skeleton(art.py_parser_skeleton(P("blackbird_python/blackbird/blackbirdParser.py")), g4_rules)
         cs_ = art.normalise_skeleton(art.cpp_parser_skeleton(P("blackbird_cpp/blackbirdParser.cpp")), g4_rules)
+        if any(w == "parser" for w, _ in DIFFERENT_COPIES):
+            # the automata are not element-for-element the same: state and decision numbers may legitimately differ
+            strip = lambda sk: {r: [it for it in items if it[0] not in ("state", "predict")] for r, items in sk.items()}
+            ps_, cs_ = strip(ps_), strip(cs_)
         for r in g4_rules:
             n += 1
             if ps_.get(r) != cs_.get(r) or not ps_.get(r):
